@@ -7,7 +7,8 @@ CHECKS['C19'] = dict(
          '(same attribute bytes with session-dependent meaning, treat-as-withdraw, AS4_PATH merge, AGGREGATOR/AS4_AGGREGATOR, repeated communities, '
          'EXTENDED_COMMUNITIES twice, EORs, MP_REACH, unknown attribute, ADD-PATH-ambiguous NLRI) and 3 OPEN bodies (55 letters). Every sequence of length '
          '<=3 (quick; <=4 with Attribute.caching on in thorough), with Attribute.caching on and off, is run from a reset process through Message.unpack, the '
-         'real JSON and text API encoders and UpdateHandler on the Adj-RIB-In; then BFS with one representative per canonical process-wide state to depth 4/6. '
+         'real JSON and text API encoders and UpdateHandler on the Adj-RIB-In; then BFS with one representative per canonical process-wide state to depth 4 (quick) / '
+         'until the frontier is empty (thorough: 2180 states, closed at depth 8). '
          'Oracle: the last letter must give exactly what it gives alone in a fresh interpreter (one subprocess per letter and caching mode, cross-checked '
          'against the in-process reset), earlier returned objects rendered again at the end must be unchanged, and every Adj-RIB-In must equal a dict model '
          'folded from the alone effects. Process-wide state is found by a reflective scan of all loaded exabgp modules plus a calibration run, not listed by hand. '
